@@ -30,6 +30,7 @@ class Stop(Exception):
 
 def run_case(case):
     recv = {o: [] for o in TEXT}
+    late = {o: [] for o in TEXT}          # what a stage attached AFTER the probe was left receives (must stay empty)
     mode = case.get("mode", "overlay")
     sels = {o: select(t, env=ENV) for o, t in TEXT.items()}
     if mode == "overlay":
@@ -72,7 +73,7 @@ def run_case(case):
             for sel, acc in cur.handler_pairs:
                 items.append(roots[id(sel)] if id(sel) in roots else "K" + owner_of(sel, acc))
         steps.append({"op": op, "outcome": outcome, "ret": ret if isinstance(ret, int) else -2, "cur": items,
-                      "recv": {k: list(v) for k, v in recv.items()}})
+                      "recv": {k: list(v) for k, v in recv.items()}, "late": {k: len(v) for k, v in late.items()}})
 
     def do(op):
         outcome, ret = "ok", -1
@@ -81,6 +82,8 @@ def run_case(case):
                 ovl[op[1]].__enter__()
             elif op[0] == "exit":
                 ovl[op[1]].__exit__(None, None, None)
+                if mode == "probe":
+                    ovl[op[1]].subscribe(lambda d, o=op[1]: late[o].append(1))
             elif op[0] == "new":
                 gens[op[1]] = LW.gen(2)
             elif op[0] == "next":
